@@ -235,6 +235,7 @@ func checkC04(c *Ctx, r *Report) {
 	r.Note("unpack family slots: %s", strings.Join(names, ", "))
 
 	durationUnitRule(c, r)
+	elementCoverageRule(c, r)
 	// ---- R04d ----
 	r.Rule("R04d", "parseValidatorTags is called only by accessField on the struct tag named by options.validatorTag; every fieldOptions built in reifyStruct / validateStruct takes its validators from accessField's result", 4)
 	pvt := c.Func("", "parseValidatorTags")
@@ -545,4 +546,212 @@ func durationUnitRule(c *Ctx, r *Report) {
 			r.add("R04e", c.FnName(fn), "seconds scaled before conversion", c.Pos(fn.Pos()), Undecided, true, "no float -> Duration conversion found in "+name)
 		}
 	}
+}
+
+// elementCoverageRule (R04f): every slot of the list reifyDoArray returns is either unpacked through
+// reifyMergeValue (which validates what it produces) or handed to tryRecursiveValidate. The visits
+// are collected per loop as index intervals [first+off, bound+off) — a loop counts only if every
+// path through its body makes a visit — and the intervals must chain from 0 to to.Len(). Kept
+// elements in front of appended ones are as much part of the result as those behind.
+func elementCoverageRule(c *Ctx, r *Report) {
+	r.Rule("R04f", "reifyDoArray visits every index of the result list: the index intervals unpacked or validated by its loops chain from 0 to to.Len()", 1)
+	fn := c.TryFunc("", "reifyDoArray")
+	if fn == nil {
+		r.add("R04f", "ucfg.reifyDoArray", "anchor", "-", Undecided, true, "ANCHOR-MISSING: reifyDoArray")
+		return
+	}
+	name := c.FnName(fn)
+	var to *ssa.Parameter
+	for _, p := range fn.Params {
+		if p.Name() == "to" {
+			to = p
+		}
+	}
+	if to == nil {
+		r.add("R04f", name, "anchor", c.Pos(fn.Pos()), Undecided, true, "reifyDoArray has no parameter `to`")
+		return
+	}
+	b := newNF(c)
+	b.Role(to, "to")
+	for _, p := range fn.Params {
+		if p != to && (p.Name() == "start" || p.Name() == "arr") {
+			b.Role(p, p.Name())
+		}
+	}
+	rmv := c.Func("", "reifyMergeValue")
+	trv := c.Func("", "tryRecursiveValidate")
+	type visit struct {
+		call  ssa.CallInstruction
+		index ssa.Value
+	}
+	visitsByLoop := map[*ssa.BasicBlock][]visit{} // keyed by loop header
+	loops := map[*ssa.BasicBlock]map[*ssa.BasicBlock]bool{}
+	for _, ci := range CallsIn(fn, false) {
+		g := ci.Common().StaticCallee()
+		var target ssa.Value
+		switch g {
+		case rmv:
+			target = ci.Common().Args[1]
+		case trv:
+			target = ci.Common().Args[0]
+		default:
+			continue
+		}
+		var idx ssa.Value
+		for _, s := range append(Sources(target), target) {
+			if call, ok := s.(*ssa.Call); ok {
+				if f := call.Call.StaticCallee(); f != nil && f.String() == "(reflect.Value).Index" && len(call.Call.Args) == 2 && b.Of(call.Call.Args[0]).String() == "$to" {
+					idx = call.Call.Args[1]
+				}
+			}
+		}
+		if idx == nil {
+			continue
+		}
+		lp := loopOf(fn, ci.(ssa.Instruction).Block())
+		if lp == nil {
+			continue
+		}
+		h := loopHeader(lp)
+		loops[h] = lp
+		visitsByLoop[h] = append(visitsByLoop[h], visit{ci, idx})
+	}
+	type interval struct{ lo, hi, what string }
+	var ivs []interval
+	for h, vs := range visitsByLoop {
+		lp := loops[h]
+		// the loop's index value K, its first value and its bound: header condition K < B
+		ifi, ok := lastInstr(h).(*ssa.If)
+		if !ok {
+			continue
+		}
+		bo, ok := ifi.Cond.(*ssa.BinOp)
+		if !ok || bo.Op != token.LSS {
+			continue
+		}
+		K, B := bo.X, bo.Y
+		var phi *ssa.Phi
+		first := ""
+		switch x := K.(type) {
+		case *ssa.Phi:
+			phi = x
+		case *ssa.BinOp: // rotated range loop: K = phi + 1
+			if p, isPhi := x.X.(*ssa.Phi); isPhi && x.Op == token.ADD {
+				if k, isK := ConstInt(x.Y); isK && k == 1 {
+					phi = p
+				}
+			}
+		}
+		if phi == nil || phi.Block() != h {
+			continue
+		}
+		for i, e := range phi.Edges {
+			if lp[h.Preds[i]] {
+				continue
+			}
+			f := b.Of(e).String()
+			if K != ssa.Value(phi) { // K = phi+1
+				if k, isK := ConstInt(e); isK {
+					f = itoa(k + 1)
+				} else {
+					f = "+(" + f + ", 1)"
+				}
+			}
+			first = f
+		}
+		nb := newNF(c)
+		for v, n := range b.bind {
+			nb.bind[v] = n
+		}
+		nb.bind[K] = &nf{op: "role", name: "k"}
+		bound := b.Of(B).String()
+		// every path through the body makes a visit?
+		avoid := map[*ssa.BasicBlock]bool{}
+		off := ""
+		okOff := true
+		for _, v := range vs {
+			avoid[v.call.(ssa.Instruction).Block()] = true
+			e := nb.Of(v.index).String()
+			var o string
+			switch {
+			case e == "$k":
+				o = "0"
+			case strings.HasPrefix(e, "+(") && strings.HasSuffix(e, ", $k)"):
+				o = strings.TrimSuffix(strings.TrimPrefix(e, "+("), ", $k)")
+			case strings.HasPrefix(e, "+($k, ") && strings.HasSuffix(e, ")"):
+				o = strings.TrimSuffix(strings.TrimPrefix(e, "+($k, "), ")")
+			default:
+				okOff = false
+			}
+			if off == "" {
+				off = o
+			} else if off != o {
+				okOff = false
+			}
+		}
+		if !okOff {
+			continue
+		}
+		body := ifi.Block().Succs[0]
+		skips := !avoid[body] && (body == h || reachableWithin(body, h, avoid, lp))
+		if skips {
+			continue // some iteration makes no visit: the loop does not cover its range
+		}
+		add := func(x, o string) string {
+			switch {
+			case o == "0":
+				return x
+			case x == "0":
+				return o
+			}
+			return "+(" + o + ", " + x + ")"
+		}
+		ivs = append(ivs, interval{add(first, off), add(bound, off), c.Pos(h.Instrs[0].Pos())})
+	}
+	// chain from 0 to Len(to)
+	end := "(reflect.Value).Len($to)"
+	cur := "0"
+	var chain []string
+	for steps := 0; steps < 8 && cur != end; steps++ {
+		found := false
+		for _, iv := range ivs {
+			if iv.lo == cur {
+				chain = append(chain, "["+iv.lo+", "+iv.hi+")")
+				cur = iv.hi
+				found = true
+				break
+			}
+		}
+		if !found {
+			break
+		}
+	}
+	var all []string
+	for _, iv := range ivs {
+		all = append(all, "["+iv.lo+", "+iv.hi+")")
+	}
+	sort.Strings(all)
+	r.Check(cur == end, "R04f", name, "all indices visited", c.Pos(fn.Pos()), "covered: "+strings.Join(chain, " "),
+		"the loops of reifyDoArray do not reach every index of the result: covered from 0 up to "+cur+" only, intervals found "+strings.Join(all, " ")+" — elements outside (kept defaults in front of appended entries, say) are returned without validation")
+}
+
+// reachableWithin: is `to` reachable from `from` inside the loop without entering a block of avoid?
+func reachableWithin(from, to *ssa.BasicBlock, avoid, within map[*ssa.BasicBlock]bool) bool {
+	seen := map[*ssa.BasicBlock]bool{from: true}
+	work := []*ssa.BasicBlock{from}
+	for len(work) > 0 {
+		b := work[len(work)-1]
+		work = work[:len(work)-1]
+		for _, s := range b.Succs {
+			if s == to {
+				return true
+			}
+			if seen[s] || avoid[s] || !within[s] {
+				continue
+			}
+			seen[s] = true
+			work = append(work, s)
+		}
+	}
+	return false
 }
